@@ -542,6 +542,17 @@ OCTET_STRING_decode_ber(const asn_codec_ctx_t *opt_codec_ctx,
 		}
 	}
 
+	if(!st->buf) {
+		/*
+		 * An empty value decoded from a constructed encoding had nothing
+		 * appended to it; the encoders and printers take buf == NULL
+		 * for "value not given".
+		 */
+		st->buf = (uint8_t *)CALLOC(1, 1);
+		if(!st->buf) RETURN(RC_FAIL);
+		st->size = 0;
+	}
+
 	ASN_DEBUG("Took %ld bytes to encode %s: [%s]:%ld",
 		(long)consumed_myself, td->name,
 		(type_variant == ASN_OSUBV_STR) ? (char *)st->buf : "<data>",
